@@ -289,6 +289,15 @@ func init() {
 		return m.st.BV(32, uint64(crc32.Update(crc, crc32.IEEETable, buf))), true
 	}
 
+	intrinsics["hash/crc32.ChecksumIEEE"] = func(m *Machine, caller *frame, fn *ssa.Function, args []value) (value, bool) {
+		p := args[0].([]value)
+		buf := make([]byte, len(p))
+		for i, e := range p {
+			buf[i] = byte(m.concretize(e.(*Term)))
+		}
+		return m.st.BV(32, uint64(crc32.ChecksumIEEE(buf))), true
+	}
+
 	// ---- regexp (host objects) ----
 	intrinsics["regexp.MustCompile"] = func(m *Machine, caller *frame, fn *ssa.Function, args []value) (value, bool) {
 		s, ok := args[0].(string)
@@ -561,6 +570,21 @@ func (m *Machine) registerUnicode() {
 		switch f := f.(type) {
 		case func(rune) bool:
 			d := &UFDef{Name: name, In: []Sort{S32}, Out: SBool, Eager: ufEager[name]}
+			if d.Eager == "" {
+				var sb strings.Builder
+				sb.WriteString("(or false")
+				for r := 0; r <= 0xFF; r++ {
+					if f(rune(r)) {
+						lo := r
+						for r+1 <= 0xFF && f(rune(r+1)) {
+							r++
+						}
+						fmt.Fprintf(&sb, " (and (bvule #x%08x x) (bvule x #x%08x))", lo, r)
+					}
+				}
+				sb.WriteString(")")
+				d.EagerLo = sb.String()
+			}
 			d.Native = func(a []uint64) uint64 { return b2u(f(rune(int32(uint32(a[0]))))) }
 			d.Lemma = func(arg uint64) (uint64, uint64, int, uint64, uint64) {
 				g := func(x uint64) uint64 { return b2u(f(rune(int32(uint32(x))))) }
@@ -570,7 +594,26 @@ func (m *Machine) registerUnicode() {
 			m.st.UF[name] = d
 		case func(rune) rune:
 			d := &UFDef{Name: name, In: []Sort{S32}, Out: S32}
+			{
+				var sb strings.Builder
+				closers := 0
+				for r := 0; r <= 0xFF; r++ {
+					delta := uint32(f(rune(r))) - uint32(r)
+					if delta != 0 {
+						lo := r
+						for r+1 <= 0xFF && uint32(f(rune(r+1)))-uint32(r+1) == delta {
+							r++
+						}
+						fmt.Fprintf(&sb, "(ite (and (bvule #x%08x x) (bvule x #x%08x)) (bvadd x #x%08x) ", lo, r, delta)
+						closers++
+					}
+				}
+				sb.WriteString("x")
+				sb.WriteString(strings.Repeat(")", closers))
+				d.EagerLo = sb.String()
+			}
 			d.Native = func(a []uint64) uint64 { return uint64(uint32(f(rune(int32(uint32(a[0])))))) }
+			d.Coarse = coarseCaseAxiom(name, f)
 			d.Lemma = func(arg uint64) (uint64, uint64, int, uint64, uint64) {
 				g := func(x uint64) uint64 { // delta
 					return uint64(uint32(f(rune(int32(uint32(x))))) - uint32(x))
@@ -581,6 +624,70 @@ func (m *Machine) registerUnicode() {
 			m.st.UF[name] = d
 		}
 	}
+}
+
+func sizeClass(r uint32) int {
+	switch {
+	case r <= 0x7F:
+		return 1
+	case r <= 0x7FF:
+		return 2
+	case r >= 0xD800 && r <= 0xDFFF:
+		return 0
+	case r <= 0xFFFF:
+		return 3
+	case r <= 0x10FFFF:
+		return 4
+	}
+	return 0
+}
+
+var (
+	coarseMu    sync.Mutex
+	coarseCache = map[string]func(an, fn string) string{}
+)
+
+// coarseCaseAxiom builds a globally valid fact about a case-mapping function f, used to let
+// the solver refute UTF-8 size-class branches without enumerating every case range:
+// above Latin-1, f(r) has the same UTF-8 length as r except at the listed code points
+// (whose images are given exactly); surrogates and out-of-range values map to themselves.
+func coarseCaseAxiom(name string, f func(rune) rune) func(an, fn string) string {
+	coarseMu.Lock()
+	defer coarseMu.Unlock()
+	if c, ok := coarseCache[name]; ok {
+		return c
+	}
+	type exc struct{ r, v uint32 }
+	var excs []exc
+	for r := uint32(0x100); r <= maxRune; r++ {
+		v := uint32(f(rune(r)))
+		if sizeClass(v) != sizeClass(r) {
+			excs = append(excs, exc{r, v})
+		}
+	}
+	c := func(an, fn string) string {
+		var sb strings.Builder
+		sb.WriteString("(and true")
+		notExc := "(and true"
+		for _, e := range excs {
+			fmt.Fprintf(&sb, " (=> (= %s #x%08x) (= %s #x%08x))", an, e.r, fn, e.v)
+			notExc += fmt.Sprintf(" (not (= %s #x%08x))", an, e.r)
+		}
+		notExc += ")"
+		rng := func(lo, hi uint32) string {
+			return fmt.Sprintf(" (=> (and (bvule #x%08x %s) (bvule %s #x%08x) %s) (and (bvule #x%08x %s) (bvule %s #x%08x)))", lo, an, an, hi, notExc, lo, fn, fn, hi)
+		}
+		sb.WriteString(rng(0x100, 0x7FF))
+		sb.WriteString(rng(0x800, 0xD7FF))
+		sb.WriteString(rng(0xE000, 0xFFFF))
+		sb.WriteString(rng(0x10000, 0x10FFFF))
+		fmt.Fprintf(&sb, " (=> (and (bvule #x0000d800 %s) (bvule %s #x0000dfff)) (= %s %s))", an, an, fn, an)
+		fmt.Fprintf(&sb, " (=> (bvult #x0010ffff %s) (= %s %s))", an, fn, an)
+		sb.WriteString(")")
+		return sb.String()
+	}
+	coarseCache[name] = c
+	return c
 }
 
 // runTable holds the maximal runs of constant value of a function over 0..maxRune.
